@@ -88,6 +88,11 @@ def impl_opts(oj, text):
     for k in ("cache", "unfold", "forceset", "compatible", "ignoretz"):
         if oj.get(k):
             kw[k] = True
+    ti = oj.get("tzinfos", 0)
+    if ti == 1:
+        kw["tzinfos"] = {"UTC": K.tzobj(3)}
+    elif ti == 2:
+        kw["tzinfos"] = lambda _name, _off: (K.tzobj(3) if _name else None)
     mode = oj.get("tzids", 0)
     if mode == 0:
         names = set(K.POOL_NAMES) | set(re.findall("(?i)TZID=([^:]+):", text)) | \
@@ -230,6 +235,8 @@ def _eval_roundtrip(o, inp, issues, stats):
 def build_expected(exp, oj):
     """keyword construction on the real library of what the text says"""
     from dateutil import rrule as RR
+    if exp["kind"] == "error":
+        return ValueError("a TZID parameter on a value that already has a zone")
     start = j_dt(exp.get("start"))
     cache = bool(oj.get("cache"))
     forceset = bool(oj.get("forceset") or oj.get("compatible"))
@@ -259,7 +266,7 @@ def _eval_text(o, inp, issues, stats):
     res, mo = run_impl_text(text, oj)
     ir = K.p_result(res)
     stats["evaluations"] += 1
-    mr = model_text(o, text, mo, res) if is_ascii(text) else [0, 9]
+    mr = model_text(o, text, mo, res) if (is_ascii(text) and not inp.get("no_model")) else [0, 9]
     cls = "ok" if ir[0] in (1, 2) else {1: "ValueError", 2: "TypeError", 3: "IndexError"}.get(ir[1], str(ir[1])) if ir[0] == 0 else str(ir)
     stats["classes"][cls] = stats["classes"].get(cls, 0) + 1
     if mr == [0, 9]:
@@ -452,6 +459,135 @@ def gen_set(R, o):
     return {"stream": "set", "text": text, "opts": oj, "expect": exp}
 
 
+def fold_multi(R, line, sep):
+    """fold a line at 2-4 arbitrary positions (never before its first character)"""
+    if len(line) < 3:
+        return line
+    ps = sorted(set(R.randrange(1, len(line)) for _ in range(R.choice([2, 3, 4]))), reverse=True)
+    for p in ps:
+        line = line[:p] + sep + " " + line[p:]
+    return line
+
+
+def gen_zoned(R, o):
+    """every line kind (RRULE / EXRULE / RDATE / EXDATE / DTSTART) may carry a zoned value (Z, or a
+    TZID parameter on DTSTART / EXDATE), under every combination of ignoretz / tzids / tzinfos;
+    with unfold every line is folded 2-4 times"""
+    ignoretz = R.random() < 0.4
+    ti = R.choice([0, 0, 1, 2])
+    mode = R.choice([0, 1, 2])
+    unfold = R.random() < 0.4
+    oj = {"cache": R.random() < 0.1, "forceset": R.random() < 0.3, "compatible": R.random() < 0.1,
+          "ignoretz": ignoretz, "tzids": mode, "tzinfos": ti, "unfold": unfold}
+    ztz = None if ignoretz else (K.tzobj(3) if ti else K.tzobj(1))       # what a trailing Z means
+    start_n = K.gen_dt(R, 0)
+    aware_plan = R.random() < 0.5          # the zone-consistent plan; ignoretz also gets inconsistent ones
+    plain = {"plus": False, "wdname": False, "styles": [], "dshort": False, "perm": [], "prefix": False,
+             "inline": 0, "folds": [], "case": []}
+
+    def zflag(consistent):
+        if ignoretz and R.random() < 0.5:
+            return R.random() < 0.5
+        return consistent
+
+    def out(d, z, tzid_tag=0):
+        """(text value, datetime as read, error?)"""
+        txt = "%04d%02d%02dT%02d%02d%02d" % (d.year, d.month, d.day, d.hour, d.minute, d.second) + ("Z" if z else "")
+        if tzid_tag:
+            if z and not ignoretz:
+                return txt, None, True
+            return txt, d.replace(tzinfo=K.tzobj(tzid_tag)), False
+        return txt, (d.replace(tzinfo=ztz) if z else d), False
+
+    err = False
+    items = []
+    # DTSTART
+    stag = R.choice([0, 0, 2, 3, 4]) if mode else R.choice([0, 0, 2, 3])
+    sz = zflag(aware_plan) if stag == 0 else (R.random() < 0.15)
+    stxt, start_eff, e = out(start_n, sz, stag)
+    err = err or e
+    inline = R.random() < 0.85
+    if inline:
+        parms = []
+        if stag:
+            parms.append("TZID=" + tag_name(stag))
+        if R.random() < 0.3:
+            parms.insert(R.randrange(len(parms) + 1), "VALUE=DATE-TIME")
+        items.append(("start", None, "DTSTART" + "".join(";" + p for p in parms) + ":" + stxt))
+    else:
+        start_eff = start_n.replace(tzinfo=K.tzobj(1)) if aware_plan else start_n
+        oj["dtstart"] = dt_j(start_eff)
+        err = False
+    start_aware = (start_eff is not None and start_eff.tzinfo is not None) if not err else aware_plan
+
+    def rule(kind):
+        kw = K.norm_kw_lists(K.gen_kw(R, 0, start_n, wf_only=True))
+        if "count" not in kw and "until" not in kw:
+            kw["until"] = start_n + datetime.timedelta(days=R.choice([1, 30, 400])) if start_n.year < 9990 else start_n
+        ekw = dict(kw)
+        if "until" in kw:
+            z = zflag(start_aware)
+            u = kw["until"].replace(tzinfo=None)
+            kw["until"] = u.replace(tzinfo=K.tzobj(1)) if z else u          # spelled with / without Z
+            ekw["until"] = u.replace(tzinfo=ztz) if z else u
+        ch = dict(plain)
+        ch.update({"plus": R.random() < 0.3, "styles": [R.randrange(4) for _ in range(3)]})
+        return ekw, spell(o, ch, "", None, kw)
+    for _ in range(R.choice([1, 1, 2])):
+        k, t = rule("rr")
+        items.append(("rr", k, ("RRULE:" if R.random() < 0.9 else "") + t))
+    for _ in range(R.choice([0, 1, 1, 2])):
+        k, t = rule("xr")
+        items.append(("xr", k, "EXRULE:" + t))
+
+    def near():
+        try:
+            return start_n + datetime.timedelta(days=R.randrange(0, 40), seconds=R.choice([0, 3600]))
+        except OverflowError:
+            return start_n
+    for _ in range(R.choice([0, 1, 1, 2])):
+        vals = [out(near(), zflag(start_aware)) for _ in range(R.choice([1, 2, 3]))]
+        items.append(("rd", [v[1] for v in vals],
+                      "RDATE" + (";VALUE=DATE-TIME" if R.random() < 0.3 else "") + ":" + ",".join(v[0] for v in vals)))
+    for _ in range(R.choice([0, 1, 1, 2])):
+        xtag = R.choice([0, 0, 2, 3, 4]) if mode else R.choice([0, 0, 2, 3])
+        vals = [out(near(), (R.random() < 0.15) if xtag else zflag(start_aware), xtag) for _ in range(R.choice([1, 2, 3]))]
+        parms = []
+        if xtag:
+            parms.append("TZID=" + tag_name(xtag))
+        if R.random() < 0.3:
+            parms.insert(R.randrange(len(parms) + 1), R.choice(["VALUE=DATE-TIME", "VALUE=DATE-TIME", "VALUE=DATE"]))
+        items.append(("xd", vals, "EXDATE" + "".join(";" + p for p in parms) + ":" + ",".join(v[0] for v in vals)))
+    R.shuffle(items)
+    # errors are raised in text order for EXDATE / DTSTART lines (both during the property loop)
+    xd_err = any(v[2] for a, vs, _t in items if a == "xd" for v in vs)
+    lines = [t for _a, _b, t in items]
+    names = [tag_name(t) for t in (2, 3, 4)]
+    if R.random() < 0.25:
+        lines = [ln.lower() if R.random() < 0.5 else ln.swapcase() for ln in lines]
+        lines = [re.sub("|".join(re.escape(n) for n in names), lambda m: [n for n in names if n.lower() == m.group(0).lower()][0],
+                        ln, flags=re.I) for ln in lines]
+    if unfold or oj["compatible"]:
+        fsep = R.choice(["\n", "\r\n"])
+        lines = [fold_multi(R, ln, fsep) for ln in lines]
+        text = R.choice(["\n", "\r\n", "\n\n"]).join(lines)
+    else:
+        text = R.choice(["\n", " ", "\r\n"]).join(lines)
+    rr = [k for a, k, _t in items if a == "rr"]
+    xr = [k for a, k, _t in items if a == "xr"]
+    rd = [d for a, ds, _t in items if a == "rd" for d in ds]
+    xd = [v[1] for a, vs, _t in items if a == "xd" for v in vs]
+    is_set = oj["forceset"] or oj["compatible"] or len(rr) > 1 or rd or xd or xr
+    if (err and inline) or xd_err:
+        exp = {"kind": "error"}
+    elif not is_set:
+        exp = {"kind": "rule", "start": dt_j(start_eff), "kw": kw_j(rr[0])}
+    else:
+        exp = {"kind": "set", "start": dt_j(start_eff), "rrules": [kw_j(k) for k in rr], "exrules": [kw_j(k) for k in xr],
+               "rdates": [dt_j(d) for d in rd], "exdates": [dt_j(d) for d in xd]}
+    return {"stream": "zoned", "text": text, "opts": oj, "expect": exp, "no_model": bool(ti)}
+
+
 JUNK = ["X=1", "FOO=BAR", "BYFOO=1", "FREQ=NEVER", "COUNT=", "COUNT=X", "COUNT=1.5", "INTERVAL=1E3",
         "BYDAY=XX", "BYDAY=0MO", "BYDAY=MO(0)", "BYDAY=", "BYDAY=,MO", "BYDAY=+", "BYDAY=12", "BYDAY=MO(",
         "BYDAY=MO()", "BYDAY=(1)", "BYDAY=1(MO)", "BYDAY=+-1MO", "BYDAY=MO(+1", "BYDAY=M", "BYDAY=1_0MO",
@@ -627,7 +763,16 @@ def m_firstweekday(p):
     return p.get("stream") == "roundtrip" and inp.get("fwd", 0) != 0 and (inp.get("kw") or {}).get("wkst") in (0, {"wd": 0})
 
 
-MATCHERS = {"c13_wkst_mo_firstweekday": m_firstweekday}
+def m_tzid_followed(p):
+    # a TZID parameter that is followed by another parameter ('DTSTART;TZID=X;VALUE=DATE-TIME:...'):
+    # the regex takes 'X;VALUE=DATE-TIME' as the name, the lookup fails and the zone is dropped
+    inp = p.get("input") or {}
+    t = inp.get("text", "").replace("\r\n ", "").replace("\n ", "")
+    return p.get("stream") in ("zoned", "spelling", "regression") and \
+        re.search(r"TZID=[^:;\s]*;[^:\s]*:", t, re.I) is not None
+
+
+MATCHERS = {"c13_wkst_mo_firstweekday": m_firstweekday, "c13_tzid_followed_by_parameter": m_tzid_followed}
 
 
 # ------------------------------------------------------------------ main
@@ -762,7 +907,7 @@ def replay(path):
         print("input   ", json.dumps(inp))
         text = eval_roundtrip(o, inp, issues, stats)
         print("str()   ", repr(text))
-    elif st in ("spelling", "set", "malformed", "regression") and inp:
+    elif st in ("spelling", "set", "zoned", "malformed", "regression") and inp:
         print("text    ", repr(inp["text"]), "opts", inp["opts"])
         ir, mr = eval_text(o, inp, issues, stats)
         print("impl    ", ir)
@@ -854,7 +999,7 @@ def main():
         if t:
             texts.append(t)
     R = C.rng("C13/roundtrip")
-    n = 2500 if tier == "quick" else 25000
+    n = 2000 if tier == "quick" else 25000
     for _ in range(n):
         tag = R.choice([0, 0, 0, 0, 0, 1, 2, 3])
         start = K.gen_dt(R, tag, us=R.random() < 0.1)
@@ -886,7 +1031,7 @@ def main():
     lap("roundtrip")
     # 3. spellings x options, 4. sets, 5. malformed
     R = C.rng("C13/spelling")
-    for _ in range(2000 if tier == "quick" else 20000):
+    for _ in range(1600 if tier == "quick" else 20000):
         inp = gen_spelling(R, o)
         bump("spelling")
         bump("spelling_inline_%d" % inp["choice"]["inline"])
@@ -907,11 +1052,20 @@ def main():
         sample(inp, eval_text(o, inp, issues, stats))
     lap("spelling")
     R = C.rng("C13/sets")
-    for _ in range(800 if tier == "quick" else 8000):
+    for _ in range(600 if tier == "quick" else 8000):
         inp = gen_set(R, o)
         if inp is None:
             continue
         bump("set" if inp["expect"]["kind"] == "set" else "set_stream_single_rule")
+        sample(inp, eval_text(o, inp, issues, stats))
+    R = C.rng("C13/zoned")
+    for _ in range(600 if tier == "quick" else 7000):
+        inp = gen_zoned(R, o)
+        bump("zoned")
+        bump("zoned_ignoretz" if inp["opts"]["ignoretz"] else "zoned_keeptz")
+        bump("zoned_tzinfos_%d" % inp["opts"]["tzinfos"])
+        if inp["expect"]["kind"] == "error":
+            bump("zoned_tzid_plus_z_error")
         sample(inp, eval_text(o, inp, issues, stats))
     lap("sets")
     R = C.rng("C13/malformed")
@@ -977,12 +1131,13 @@ def main():
         "property_violations_on_impl": n_spec,
         "samples": [{"stream": "roundtrip", "str(rule)": t} for t in texts[:4]] + samples,
         "partial_theorems": [t for t in props["theorems"] if t.endswith("_partial")],
-        "differential_only": ["tzinfos option", "tzids=None (tz.gettz) beyond the names used",
+        "differential_only": ["tzinfos option (zoned stream: implementation vs keyword construction only)",
+                              "tzids=None (tz.gettz) beyond the names used",
                               "date values outside YYYYMMDD[THHMMSS[Z]] (generic parser)",
                               "occurrence equality of equal rule states (C01's iteration)",
                               "non-ASCII text",
-                              "TZID parameter with a lower-cased keyword or a VALUE parameter, TZID on EXDATE lines",
-                              "ignoretz / tzids at whole-text level (ignoretz is proved at the level of the rule parts)"],
+                              "TZID combined with lower-casing of the whole text, TZID on an EXDATE line at "
+                              "whole-text level (proved at line level)"],
         "known_findings_hit": verdict.known_hits,
         "anchored_line_coverage": covinfo,
     }
